@@ -19,6 +19,10 @@ pub trait HueOps: Copy + Send + Sync + 'static {
     fn from_rad(y: Self::T) -> Self::T;
     fn eq(x: Self::T, y: Self::T) -> bool;
     fn ne(x: Self::T, y: Self::T) -> bool;
+    /// [abs_diff_eq, !abs_diff_ne, relative_eq, !relative_ne, ulps_eq, !ulps_ne] with default tolerances
+    fn eq_approx(x: Self::T, y: Self::T) -> [bool; 6];
+    /// every approx spelling says "different" (only asked for hues >= 0.25 degrees apart on the circle)
+    fn ne_approx(x: Self::T, y: Self::T) -> bool;
     /// PartialEq<T>: hue(x) == y
     fn eq_t(x: Self::T, y: Self::T) -> bool;
     fn to_u8(x: Self::T) -> u8;
@@ -82,9 +86,27 @@ macro_rules! hue_ops {
             fn eq(x: $t, y: $t) -> bool {
                 $hue::<$t>::new(x) == $hue::<$t>::new(y)
             }
+            // every approx spelling of equality (default tolerances: eps absolute / relative, 4 ulps) on hues that
+            // are the same angle (exact whole-turn shifts): all *_eq true, all *_ne false
+            fn eq_approx(x: $t, y: $t) -> [bool; 6] {
+                use approx::{AbsDiffEq, RelativeEq, UlpsEq};
+                let (a, b) = ($hue::<$t>::new(x), $hue::<$t>::new(y));
+                let e = <$t as AbsDiffEq>::default_epsilon();
+                [a.abs_diff_eq(&b, e), !a.abs_diff_ne(&b, e),
+                 a.relative_eq(&b, e, <$t as RelativeEq>::default_max_relative()), !a.relative_ne(&b, e, <$t as RelativeEq>::default_max_relative()),
+                 a.ulps_eq(&b, e, <$t as UlpsEq>::default_max_ulps()), !a.ulps_ne(&b, e, <$t as UlpsEq>::default_max_ulps())]
+            }
             #[inline(always)]
             fn ne(x: $t, y: $t) -> bool {
                 $hue::<$t>::new(x) != $hue::<$t>::new(y)
+            }
+            fn ne_approx(x: $t, y: $t) -> bool {
+                use approx::{AbsDiffEq, RelativeEq, UlpsEq};
+                let (a, b) = ($hue::<$t>::new(x), $hue::<$t>::new(y));
+                let e = <$t as AbsDiffEq>::default_epsilon();
+                a.abs_diff_ne(&b, e) && !a.abs_diff_eq(&b, e)
+                    && a.relative_ne(&b, e, <$t as RelativeEq>::default_max_relative()) && !a.relative_eq(&b, e, <$t as RelativeEq>::default_max_relative())
+                    && a.ulps_ne(&b, e, <$t as UlpsEq>::default_max_ulps()) && !a.ulps_eq(&b, e, <$t as UlpsEq>::default_max_ulps())
             }
             #[inline(always)]
             fn eq_t(x: $t, y: $t) -> bool {
